@@ -1,0 +1,16 @@
+//go:build verif
+
+package bluge
+
+import "github.com/blugelabs/bluge/index"
+
+// Verification hooks (build tag "verif" only): reach the index.Config of a Config.
+
+// VerifIndexConfig returns the index configuration carried by this Config.
+func (config Config) VerifIndexConfig() index.Config { return config.indexConfig }
+
+// VerifWithIndexConfig returns a copy of this Config using the given index configuration.
+func (config Config) VerifWithIndexConfig(ic index.Config) Config {
+	config.indexConfig = ic
+	return config
+}
